@@ -142,11 +142,11 @@ func versionTemplates(eco, size string) []string {
 	case "debian":
 		s = expandAll("{d}.{d}", "{d}.{d}-{d}", "{d}:{d}.{d}", "{d}.{d}{[a-z+~.]}", "{d}{[a-z+~.]}{d}", "{d}.{d}{[a-z+~.\\-]}{[a-z+~.]}{l}{d}", "{d}.{d}+{l}{d}-{d}", "{d}{d}.{d}")
 		m = expandAll("(|{d}:){d}(.{d}|{[a-z+~.]}{d}|.{d}{[a-z+~.]}|.{d}.{d}|{[a-z+~.]}{[a-z+~.]}{d})(|-{d}|-{d}{[a-z+~.]}{d})", "{d}{d}.{d}{d}", "{d}.{d}~{l}{l}{d}", "{d}.{d}-{d}-{d}")
-		l = expandAll("(|{d}:|{d}{d}:){d}(|.{d}|{[A-Za-z+~.]}{d}|.{d}{[A-Za-z+~.]}|.{d}.{d}|{[A-Za-z+~.]}{[A-Za-z+~.]}{d}|.{d}{[a-z+~.]}{[a-z+~.]}|.{d}{d}{d})(|-{d}|-{d}{[a-z+~.]}{d}|-{[a-z+~.]}{d}|-{d}-{d})", "{d}.{d}~{l}{l}{d}", "0{d}.0{d}", "{d}{d}{d}{d}{d}{d}{d}{d}{d}{d}{d}{d}{d}{d}{d}{d}{d}{d}{d}{d}{d}", "{d}{d}{d}{d}{d}{d}{d}{d}{d}{d}{d}{d}{d}{d}{d}{d}{d}{d}{d}{d}")
+		l = expandAll("(|{d}:|{d}{d}:){d}(|.{d}|{[A-Za-z+~.]}{d}|.{d}{[A-Za-z+~.]}|.{d}.{d}|{[A-Za-z+~.]}{[A-Za-z+~.]}{d}|.{d}{[a-z+~.]}{[a-z+~.]}|.{d}{d}{d})(|-{d}|-{d}{[a-z+~.]}{d}|-{[a-z+~.]}{d}|-{d}-{d})", "{d}.{d}~{l}{l}{d}", "0{d}.0{d}", "{d}{d}{d}{d}{d}{d}{d}{d}{d}{d}{d}{d}{d}{d}{d}{d}{d}{d}{d}{d}{d}", "{d}{d}{d}{d}{d}{d}{d}{d}{d}{d}{d}{d}{d}{d}{d}{d}{d}{d}{d}{d}", "{d}.{d}{a}{d}", "{d}.{d}.{a}{a}-{d}")
 	case "rpm":
 		s = expandAll("{d}.{d}", "{d}.{d}-{d}", "{d}:{d}.{d}", "{d}.{d}{[a-z~^._]}", "{d}{[a-z~^._]}{d}", "{d}.{d}{[a-z~^._]}{[a-z~^._]}{l}{d}", "{d}.{d}^{l}{d}", "{d}{d}.{d}")
 		m = expandAll("(|{d}:){d}(.{d}|{[a-z~^._+]}{d}|.{d}{[a-z~^._+]}|.{d}.{d}|{[a-z~^._]}{[a-z~^._]}{d})(|-{d}|-{d}.{l}{l}{d})", "{d}{d}.{d}{d}", "{d}.{d}~{l}{l}{d}", "{d}.{d}^{l}{l}{l}{d}")
-		l = expandAll("(|{d}:|{d}{d}:){d}(|.{d}|{[A-Za-z~^._+]}{d}|.{d}{[A-Za-z~^._+]}|.{d}.{d}|{[A-Za-z~^._+]}{[A-Za-z~^._+]}{d}|.{d}{[a-z~^._]}{[a-z~^._]}|.{d}{d}{d})(|-{d}|-{d}.{l}{l}{d}|-{[a-z~^._]}{d})", "0{d}.0{d}", "{d}{d}{d}{d}{d}{d}{d}{d}{d}{d}{d}{d}{d}{d}{d}{d}{d}{d}{d}{d}{d}", "{d}{d}{d}{d}{d}{d}{d}{d}{d}{d}{d}{d}{d}{d}{d}{d}{d}{d}{d}{d}")
+		l = expandAll("(|{d}:|{d}{d}:){d}(|.{d}|{[A-Za-z~^._+]}{d}|.{d}{[A-Za-z~^._+]}|.{d}.{d}|{[A-Za-z~^._+]}{[A-Za-z~^._+]}{d}|.{d}{[a-z~^._]}{[a-z~^._]}|.{d}{d}{d})(|-{d}|-{d}.{l}{l}{d}|-{[a-z~^._]}{d})", "0{d}.0{d}", "{d}{d}{d}{d}{d}{d}{d}{d}{d}{d}{d}{d}{d}{d}{d}{d}{d}{d}{d}{d}{d}", "{d}{d}{d}{d}{d}{d}{d}{d}{d}{d}{d}{d}{d}{d}{d}{d}{d}{d}{d}{d}", "{d}.{d}{a}{d}", "{d}.{d}.{a}{a}-{d}")
 	case "alpm":
 		s = expandAll("{d}.{d}", "{d}.{d}-{d}", "{d}:{d}.{d}-{d}", "{d}.{d}{l}", "{d}.{d}{l}{l}{d}", "{d}.{d}.{l}{l}", "{d}{d}.{d}", "{d}.{d}.{d}-{d}")
 		m = expandAll("(|{d}:){d}(.{d}|{[a-z._+]}{d}|.{d}{[a-z._+]}|.{d}.{d}|.{d}{l}{l}{d}|.{d}{l}{l}{l})(|-{d}|-{d}.{d})", "{d}{d}.{d}{d}")
@@ -173,8 +173,8 @@ func versionTemplates(eco, size string) []string {
 		l = expandAll("(|v){d}(|.{d}|.{d}.{d}|.{d}.{d}.{d}|.{d}.{d}.{d}.{d})(|-{a}{a}|-{a}|-{a}{a}{a}|-{a}{a}{a}{a}{d}|-{a}{a}{a}{a}.{d}|-{a}{a}{a}{a}{a}|-{a}{a}{a}{a}{a}{d}|{a}{d}|{a}{a}{d}|{a}{a}{a}{a}{d}|{a}{a}{a}{a}{a}{d}|-{a}{d}|-{a}{a}{d})(|+{n})", "dev-{l}{l}", "{d}{d}.{d}{d}", "0{d}.0{d}")
 	case "conan":
 		s = expandAll("{d}.{d}.{d}", "{d}.{d}", "{d}", "{d}.{d}.{d}-{[0-9a-z]}", "{d}.{d}.{d}-{[0-9a-z]}.{[0-9a-z]}", "{d}.{[0-9a-z]}{[0-9a-z]}", "{d}{d}.{d}", "{d}.{d}.{d}+{[0-9a-z]}")
-		m = expandAll("{[0-9a-z]}(|.{[0-9a-z]}|.{d}.{d}|.{d}.{d}.{d})(|-{[0-9a-z]}|-{[0-9a-z]}.{[0-9a-z]}|-{[0-9a-z\\-]}{[0-9a-z\\-]})(|+{[0-9a-z]})", "{d}{d}.{d}{d}", "{d}.{[0-9a-z]}{[0-9a-z]}", "0{d}.{d}")
-		l = expandAll("{[0-9a-z]}(|.{[0-9a-z]}|.{d}.{d}|.{d}.{d}.{d}|.{d}.{d}.{d}.{d})(|-{[0-9a-z]}|-{[0-9a-z]}.{[0-9a-z]}|-{[0-9a-z\\-]}{[0-9a-z\\-]}|-{l}{l}.{d}{d})(|+{[0-9a-z]}|+{[0-9a-z]}.{[0-9a-z]})", "{d}{d}.{d}{d}", "{d}.{[0-9a-z]}{[0-9a-z]}", "0{d}.{d}", "{[0-9a-z]}{[0-9a-z]}.{[0-9a-z]}{[0-9a-z]}")
+		m = expandAll("{[0-9a-z]}(|.{[0-9a-z]}|.{d}.{d}|.{d}.{d}.{d})(|-{[0-9a-z]}|-{[0-9a-z]}.{[0-9a-z]}|-{[0-9a-z\\-]}{[0-9a-z\\-]})(|+{[0-9a-z]})", "{d}{d}.{d}{d}", "{d}.{[0-9a-z]}{[0-9a-z]}", "0{d}.{d}", "{d}.{d}-{a}{a}", "{d}.{n}{n}")
+		l = expandAll("{[0-9a-z]}(|.{[0-9a-z]}|.{d}.{d}|.{d}.{d}.{d}|.{d}.{d}.{d}.{d})(|-{[0-9a-z]}|-{[0-9a-z]}.{[0-9a-z]}|-{[0-9a-z\\-]}{[0-9a-z\\-]}|-{l}{l}.{d}{d})(|+{[0-9a-z]}|+{[0-9a-z]}.{[0-9a-z]})", "{d}{d}.{d}{d}", "{d}.{[0-9a-z]}{[0-9a-z]}", "0{d}.{d}", "{[0-9a-z]}{[0-9a-z]}.{[0-9a-z]}{[0-9a-z]}", "{d}.{d}-{a}{a}", "{d}.{n}{n}", "{d}.{d}.{d}-{a}{a}{a}.{d}+{n}")
 	case "cran":
 		s = expandAll("{d}.{d}", "{d}.{d}.{d}", "{d}-{d}", "{d}.{d}-{d}", "{d}{d}.{d}", "{d}.{d}.{d}.{d}", "{d}.{d}{d}", "0{d}.{d}")
 		m = expandAll("{d}(.|-){d}(|.{d}|-{d}|.{d}.{d}|.{d}-{d})", "{d}{d}.{d}{d}", "0{d}.0{d}", "{d}.{d}.{d}.{d}.{d}")
@@ -214,7 +214,9 @@ func versionTemplates(eco, size string) []string {
 func mustTemplates(eco string) []string {
 	switch eco {
 	case "golang":
-		return []string{"v{d}.{d}.{d}-0.20{d}{d}0{D}1{d}1{d}{[0-5]}{d}{[0-5]}{d}-{h}{h}{h}{h}{h}{h}{h}{h}{h}{h}{h}{h}"}
+		ts14 := "20{d}{d}0{D}1{d}1{d}{[0-5]}{d}{[0-5]}{d}"
+		h12 := "{h}{h}{h}{h}{h}{h}{h}{h}{h}{h}{h}{h}"
+		return []string{"v{d}.{d}.{d}-0." + ts14 + "-" + h12, "v{d}.0.0-" + ts14 + "-" + h12, "v{d}.{d}.{d}-{l}{l}.0." + ts14 + "-" + h12, "v{d}.{d}.{d}"}
 	case "conan":
 		return []string{"{[0-9a-z]}", "{d}.{d}", "{d}.{d}.{d}"}
 	case "gem", "maven", "pypi", "debian", "rpm", "alpine", "gentoo", "alpm", "nuget", "composer":
